@@ -174,3 +174,5 @@ VERUS_ARGS = ['--multiple-errors', '30']
 # a false obligation in this 450-line function is refuted only after a long search: give the solver room (the unchanged tree needs ~6 s)
 RLIMIT = {'quick': 400, 'thorough': 1200}
 CANARIES = ['Residual::is_concrete']   # a global-consistency canary (interpret has no precondition; an  on it only burns solver time)
+# normalize_ext_value is represented by an ASSUMED contract ("same value"): its code is reviewed, not verified
+WATCH = [('cedar-policy-core/src/tpe/evaluator.rs', 'fn normalize_ext_value'), ('cedar-policy-core/src/tpe/evaluator.rs', 'fn normalize_ext_value_inner')]
